@@ -99,6 +99,30 @@ func c17Histories() []c17History {
 		// the family on top of the base dictionary
 		hs = append(hs, c17History{fmt.Sprintf("base+generated-family/order-%v", p), append([]string{base[0]}, x...)})
 	}
+	// one file with several <application> elements: bare re-declarations of already loaded
+	// applications (as one writes to name a dependency) before, between and after populated ones
+	multi := func(order string) string {
+		var b strings.Builder
+		b.WriteString(`<?xml version="1.0" encoding="UTF-8"?><diameter>`)
+		for _, ch := range order {
+			switch ch {
+			case 'b': // bare element for an application loaded earlier
+				b.WriteString(`<application id="4" type="auth" name="Bare-4"></application>`)
+			case 'z': // bare element for the base application
+				b.WriteString(`<application id="0" name="Bare-0"></application>`)
+			case 'p':
+				b.WriteString(`<application id="16777301" type="auth" name="Multi-P"><command code="8388001" short="MP" name="Multi-P-Cmd"><request><rule avp="Multi-P-Note" required="false"/></request><answer><rule avp="Multi-P-Note" required="false"/></answer></command><avp name="Multi-P-Note" code="9101" must="M" may="P" must-not="V" may-encrypt="-"><data type="UTF8String"/></avp></application>`)
+			case 'q':
+				b.WriteString(`<application id="16777302" type="acct" name="Multi-Q"><avp name="Multi-Q-Num" code="9102" must="-" may="P" must-not="-" may-encrypt="-" vendor-id="7777"><data type="Unsigned32"/></avp></application>`)
+			}
+		}
+		b.WriteString(`</diameter>`)
+		return b.String()
+	}
+	for _, order := range []string{"bp", "pb", "bpq", "pbq", "pqb", "zbpq", "bzqp"} {
+		hs = append(hs, c17History{"multi-application-file/" + order, []string{base[0], base[1], multi(order)}})
+		hs = append(hs, c17History{"multi-application-file/fresh/" + order, []string{multi(order)}})
+	}
 	return hs
 }
 
@@ -207,6 +231,22 @@ func c17Queries(p *dict.Parser, m *refdict.Model, prevResolvable map[string]bool
 				n++
 				if s := cmpAVP(got, err, want, false, app, k.code, k.vendor); s != "" {
 					return n, fmt.Sprintf("FindAVP(%d, int(%d))", app, k.code), s
+				}
+			}
+		}
+		// lookups of one code under different vendor ids directly after one another (a lookup must not
+		// depend on the one made just before it)
+		for _, v := range m.All {
+			for _, pair := range [][2]uint32{{v.Vendor, 4242}, {4242, v.Vendor}, {v.Vendor, refdict.AnyVendor}, {refdict.AnyVendor, 4242}, {v.Vendor, 0}, {0, v.Vendor}} {
+				if pair[0] == pair[1] {
+					continue
+				}
+				p.FindAVPWithVendor(app, v.Code, pair[0])
+				want := m.FindCode(app, v.Code, pair[1])
+				got, err := p.FindAVPWithVendor(app, v.Code, pair[1])
+				n++
+				if s := cmpAVP(got, err, want, true, app, v.Code, pair[1]); s != "" {
+					return n, fmt.Sprintf("FindAVPWithVendor(%d, uint32(%d), %d) directly after the same lookup with vendor %d", app, v.Code, pair[1], pair[0]), s
 				}
 			}
 		}
@@ -393,7 +433,7 @@ func runC17(ctx *ev.Ctx) {
 	}
 	ctx.Set("lookups_compared", total)
 	ctx.AddEvals(total, total)
-	ctx.Rule = "loading histories: the embedded dictionaries (extracted from diam/dict/default.go) in default order, every rotation and every adjacent swap; a generated family of four 3-AVP dictionaries that redefine each other's codes and names across application 0 / 4 / 16777251 and vendor variants, in all 24 orders, alone and on top of the base dictionary. After every Load - and after Loads that are rejected (a re-declared command, an undeclarable data type, truncated XML) following the first and the last dictionary of each history: FindAVPWithVendor by uint32 code, by int code and by name, FindAVP by int, FindCommand and App(id[,type]) for every application (loaded, children of the parent map, 0, an unrelated id) x every code / name present anywhere plus +-1 neighbours x vendor {declared, 0, another, wildcard} (the key space is that of ALL dictionaries of the history, so keys are also looked up while still undefined) are compared with the reference model, and everything resolvable before the Load must still be. Distinct by (history, query)."
+	ctx.Rule = "loading histories: dictionary files with several application elements (bare re-declarations of loaded applications before / between / after populated ones); the embedded dictionaries (extracted from diam/dict/default.go) in default order, every rotation and every adjacent swap; a generated family of four 3-AVP dictionaries that redefine each other's codes and names across application 0 / 4 / 16777251 and vendor variants, in all 24 orders, alone and on top of the base dictionary. After every Load - and after Loads that are rejected (a re-declared command, an undeclarable data type, truncated XML) following the first and the last dictionary of each history: FindAVPWithVendor by uint32 code, by int code and by name, FindAVP by int, FindCommand and App(id[,type]) for every application (loaded, children of the parent map, 0, an unrelated id) x every code / name present anywhere plus +-1 neighbours x vendor {declared, 0, another, wildcard}, plus every code looked up under two different vendor ids directly after one another, (the key space is that of ALL dictionaries of the history, so keys are also looked up while still undefined) are compared with the reference model, and everything resolvable before the Load must still be. Distinct by (history, query)."
 	ctx.Assume = []string{"reference model refdict: application -> documented parents (16777251->4, 16777238->4, 4->1) -> base; exact vendor or wildcard; last load wins"}
 }
 
